@@ -204,7 +204,17 @@ class Element(UnicodeMixin):
         @see: __setitem__()
 
         """
-        attr = self.getAttribute(name)
+        prefix, tag = splitPrefix(name)
+        if prefix is None:
+            # An unqualified name only ever names an unqualified attribute,
+            # e.g. "type" is not "xsi:type".
+            attr = None
+            for a in self.attributes:
+                if a.prefix is None and a.name == tag:
+                    attr = a
+                    break
+        else:
+            attr = self.getAttribute(name)
         if attr is None:
             attr = Attribute(name, value)
             self.append(attr)
